@@ -260,6 +260,10 @@ func cmdCheck(args []string) {
 		}
 		violations++
 		rp := filepath.Join(verifRoot(), "replays", id+"-"+sanitizeFile(v.Obl.Name)+".json")
+		if d := os.Getenv("GOVC_REPLAY_DIR"); d != "" {
+			os.MkdirAll(d, 0o755)
+			rp = filepath.Join(d, id+"-"+sanitizeFile(v.Obl.Name)+".json")
+		}
 		rep := map[string]interface{}{
 			"property": id, "obligation": v.Obl.Name, "function": v.Obl.Func, "kind": v.Obl.Kind,
 			"where": fmt.Sprintf("%s:%d", relPath(v.Obl.Pos.Filename), v.Obl.Pos.Line), "clause": v.Obl.Text,
@@ -333,7 +337,11 @@ func cmdCheck(args []string) {
 		"violations":  violations,
 	}
 	os.MkdirAll(filepath.Join(verifRoot(), "evidence"), 0o755)
-	writeJSON(filepath.Join(verifRoot(), "evidence", id+".json"), ev)
+	if out := os.Getenv("GOVC_EVIDENCE_OUT"); out != "" {
+		writeJSON(out, ev) // self-test runs on scratch copies must not overwrite the evidence
+	} else {
+		writeJSON(filepath.Join(verifRoot(), "evidence", id+".json"), ev)
+	}
 	fmt.Printf("property=%s tier=%s functions=%d obligations=%d discharged=%d violations=%d engine_errors=%d wall=%.1fs\n",
 		id, *tier, len(funcs), total, discharged, violations, engineErrors, time.Since(start).Seconds())
 	if violations > 0 {
